@@ -2,7 +2,7 @@
 From LexVerif Require Import Base CharClass RangeMap Regex Spec SpecExec LexSpec Nfa Dfa NfaToDfa NfaSem Codegen
      Runtime ScanIface RulesetSem Driver SpecDef ClassAlgProofs RuntimeProofs RuntimeLemmas ScanOkProofs
      RulesetSemProofs LexSpecProofs LexSpecFacts SpecInvariants EndToEnd EndToEndModel Instance Harness
-     GenCode GenCodeProofs GenCodeChecks GenUtilProofs.
+     GenCode GenCodeProofs GenCodeChecks ProgIso GenUtilProofs.
 From LexVerif.Gen Require Import GenTables GenConsts GenUtil.
 From LexVerif Require Import BacktrackProofs.
 
@@ -154,6 +154,48 @@ Theorem c01_generated_code_stream :
               = map (outcome_of T E) r.
 Proof. exact generated_code_correct_model. Qed.
 
+(* The IMPLEMENTATION's program. The real macro numbers the states of its automata differently from the model for
+   some definitions (hash-map iteration order). The check builds the program P' from the implementation's own dumped
+   simplified DFA, finds a renaming of states (untrusted search) and verifies it with the boolean prog_iso_b
+   (sound: c01_prog_iso_checker_sound). For every such P' the interpreter and the generated code produce the stream
+   of the reference semantics - the end-to-end theorems about exactly the program the real generated code runs. *)
+Theorem c01_prog_iso_checker_sound : forall fl gl P P',
+  prog_iso_b fl gl P P' = true -> prog_iso (fun s => nth s fl 0) P P'.
+Proof. exact prog_iso_b_sound. Qed.
+
+Theorem c01_impl_program_correct :
+  forall benv mg (width : N -> N) tab_width (T E U : Type) (d : def) c rss
+         (actions : nat -> action T E U) fl gl P',
+  benv_wf benv -> compile benv mg d = Ok c -> def_rulesets d = Ok rss -> wf_def benv d = true ->
+  def_chars_ok benv rss -> acts_distinct d ->
+  prog_iso_b fl gl (c_program c) P' = true ->
+  (forall a v u n, a_switch (actions a v u) = Some n -> n < length (p_switch P')) ->
+  forall whole u with_str,
+    Forall (fun ch => is_scalar ch = true) whole ->
+    (with_str = false -> RuntimeProofs.text_blind T E U actions) ->
+  forall n fuel, enough_fuel U fuel (lexer_new U whole u with_str) ->
+  exists r, spec_run benv width tab_width T E U rss actions n (s_init U whole u) r /\
+            run_lexer width tab_width T E U P' actions n fuel (lexer_new U whole u with_str)
+              = map (outcome_of T E) r.
+Proof. exact impl_program_correct. Qed.
+
+Theorem c01_impl_generated_code_correct :
+  forall benv mg (width : N -> N) tab_width (T E U : Type) (d : def) c rss
+         (actions : nat -> action T E U) fl gl P' arms,
+  benv_wf benv -> compile benv mg d = Ok c -> def_rulesets d = Ok rss -> wf_def benv d = true ->
+  def_chars_ok benv rss -> acts_distinct d ->
+  prog_iso_b fl gl (c_program c) P' = true ->
+  (forall a v u n, a_switch (actions a v u) = Some n -> n < length (p_switch P')) ->
+  chars_nodup_b P' = true -> gen_arms P' = Ok arms ->
+  forall whole u with_str,
+    Forall (fun ch => is_scalar ch = true) whole ->
+    (with_str = false -> RuntimeProofs.text_blind T E U actions) ->
+  forall n fuel, enough_fuel U fuel (lexer_new U whole u with_str) ->
+  exists r, spec_run benv width tab_width T E U rss actions n (s_init U whole u) r /\
+            grun_lexer width tab_width T E U P' actions arms n fuel (lexer_new U whole u with_str)
+              = map (outcome_of T E) r.
+Proof. exact impl_generated_code_correct. Qed.
+
 (* the side condition of c01_generated_next is decided by a boolean the check evaluates on the automata
    the real macro dumped *)
 Theorem c01_generated_code_side_condition : forall p, chars_nodup_b p = true -> chars_nodup p.
@@ -291,6 +333,9 @@ Print Assumptions c01_compiled_scan_ok.
 Print Assumptions c01_ruleset_sem.
 Print Assumptions c01_generated_next.
 Print Assumptions c01_generated_code_stream.
+Print Assumptions c01_prog_iso_checker_sound.
+Print Assumptions c01_impl_program_correct.
+Print Assumptions c01_impl_generated_code_correct.
 Print Assumptions c01_generated_code_side_condition.
 Print Assumptions c01_library_next.
 Print Assumptions c01_library_backtrack.
